@@ -42,6 +42,7 @@ pub fn corpus_program(seed: u64, k: u64, codec: bool) -> Program {
     cfg.p_assoc = if k % 3 == 1 { 0.5 } else { 0.15 };
     cfg.hostile_names = k % 7 == 2;
     cfg.cow_def = false;
+    cfg.odd_docs = false;
     if codec {
         cfg.allow_char = false;
         cfg.generic_recursion = false;
